@@ -109,6 +109,8 @@ class Ref:
         self.marks = []             # (begin, end) index pairs of free-order brackets in self.log
         self.handler_calls = []
         self.repeat = RefRepeat()
+        self.i18n = [{'domain': None, 'context': None, 'target': self.options.get('target_language')}]
+        self.translate = self.helpers.get('__translate__')
         self.helpers.setdefault('repeat', self.repeat)
 
     # ---- expressions (TALES) ---------------------------------------------------------------
@@ -355,6 +357,50 @@ class Ref:
                 self.interp.pop()
 
     def once_(self, node, scope, out):
+        pushed = False
+        if 'i18n_domain' in node or 'i18n_context' in node or 'i18n_target' in node:
+            st = dict(self.i18n[-1])
+            if 'i18n_domain' in node:
+                st['domain'] = node['i18n_domain']
+            if 'i18n_context' in node:
+                st['context'] = node['i18n_context']
+            if 'i18n_target' in node:
+                st['target'] = eval(self.codes[node['i18n_target']], {'__builtins__': _builtins},
+                                    dict(scope.flatten(), default=self.i18n[-1]['target']))
+            self.i18n.append(st)
+            pushed = True
+        try:
+            self.once__(node, scope, out)
+        finally:
+            if pushed:
+                self.i18n.pop()
+
+    def T(self, msgid, mapping=None, default=None):
+        st = self.i18n[-1]
+        return self.translate(msgid, domain=st['domain'], mapping=mapping, context=st['context'],
+                              target_language=st['target'], default=default)
+
+    def translate_children(self, node, scope):
+        """content of an i18n:translate element -> (normalised text with ${name} placeholders, mapping)"""
+        buf = []
+        mapping = {}
+        for c in node.get('children') or []:
+            if isinstance(c, dict) and c.get('i18n_name'):
+                sub = []
+                self.render(c, scope, sub)
+                text = ''
+                for x in sub:
+                    text = text + x
+                mapping[c['i18n_name']] = text
+                buf.append('${%s}' % c['i18n_name'])
+            else:
+                self.render(c, scope, buf)
+        text = ''
+        for x in buf:
+            text = text + x
+        return collapse_ws(text), mapping
+
+    def once__(self, node, scope, out):
         frame = scope.push()
         try:
             if 'switch' in node:
@@ -374,6 +420,8 @@ class Ref:
                 v = self.ev(e, scope, default_ok=True)
                 if v is not self.default:
                     keep_children = False
+                    if node.get('i18n_translate') == '' and v is not None:
+                        v = self.T(v, None, v)          # dynamic content offered to the translation function
                     content = '' if v is None else self.to_text(
                         Structure(v) if mode == 'structure' else v, True)
             omit = False
@@ -384,7 +432,14 @@ class Ref:
                 start = self.start_tag(node, scope)
             self.free_end(fb)
             out.append(start)
-            if keep_children:
+            if keep_children and 'i18n_translate' in node:
+                text, mapping = self.translate_children(node, scope)
+                explicit = node['i18n_translate']
+                if explicit:
+                    out.append(self.T(explicit, mapping or None, text))
+                elif text:
+                    out.append(self.T(text, mapping or None, text))
+            elif keep_children:
                 for c in node.get('children') or []:
                     self.render(c, scope, out)
             else:
@@ -430,6 +485,33 @@ class Ref:
                 attrs[idx] = [attrs[idx][0] if attrs[idx] else n, text, False]
             else:
                 attrs.append([n, text, False])
+        i18n_attrs = parse_i18n_attributes(node.get('i18n_attributes'))
+        implicit = self.options.get('implicit_i18n_attributes') or ()
+        statics = {n: v for n, v in node.get('static', [])}
+        for a in attrs:
+            if a is None:
+                continue
+            name = a[0]
+            if name in i18n_attrs:
+                a[1] = self.T(i18n_attrs[name] or a[1], None, a[1])
+            elif name.lower() in implicit and a[2]:
+                raw = statics.get(name)
+                if isinstance(raw, str):
+                    a[1] = self.T(raw, None, raw)
+                else:
+                    # interpolated text: translated with a mapping when every expression is a plain name
+                    names = [p['interp'].get('py') for p in raw if not isinstance(p, str) and 'interp' in p]
+                    if all(nm is not None and nm.isidentifier() for nm in names):
+                        msgid = ''
+                        mapping = {}
+                        for p in raw:
+                            if isinstance(p, str):
+                                msgid = msgid + p
+                            elif 'interp' in p:
+                                nm = p['interp']['py']
+                                msgid = msgid + '${%s}' % nm
+                                mapping[nm] = self.to_text(self.ev(p['interp'], scope), True, '"')
+                        a[1] = self.T(msgid, mapping, None)
         s = '<' + node['tag']
         for a in attrs:
             if a is not None:
@@ -439,6 +521,35 @@ class Ref:
         else:
             s = s + '>'
         return s
+
+
+def collapse_ws(text):
+    out = ''
+    prev_space = True
+    for ch in text:
+        if ch in ' \t\n\r\x0b\x0c':
+            if not prev_space:
+                out = out + ' '
+            prev_space = True
+        else:
+            out = out + ch
+            prev_space = False
+    if out.endswith(' '):
+        out = out[:-1]
+    return out
+
+
+def parse_i18n_attributes(spec):
+    d = {}
+    if not spec:
+        return d
+    for part in spec.split(';'):
+        words = part.split()
+        if len(words) == 2:
+            d[words[0]] = words[1]
+        elif len(words) == 1:
+            d[words[0]] = None
+    return d
 
 
 class RefRepeatItem:
